@@ -515,6 +515,51 @@ theorem lp_nack (g : Guards) (hg : g.lpType = T.tLpPacket) (hdg : g.nackByDigest
     if_true, hk, named, afterNack]
   cases PyDict.get? st.pit (splitDigest facts.name).1 <;> rfl
 
+/-- the envelope a forwarder may send for a Nack without a reason: `LpPacket{ Nack{}, Fragment }` -/
+def bareNack (i : Bytes) : Bytes := tlv T.tLpPacket (wireOf [(T.tNack, []), (T.tFragment, i)])
+
+/-- the envelope decoder on a Nack header without NackReason: a Nack header is present, its reason is absent -/
+theorem parseLp_nack_bare (i : Bytes) (hi : i.length < 2^64)
+    (hlen : (wireOf [(T.tNack, ([] : Bytes)), (T.tFragment, i)]).length < 2^64) :
+    parseLp T (bareNack i) = .ok { nack := some none, pitToken := none, fragment := some i } := by
+  have hsz : ∀ e ∈ [(T.tNack, ([] : Bytes)), (T.tFragment, i)], e.1 < 2^64 ∧ e.2.length < 2^64 := by
+    intro e he
+    simp only [List.mem_cons, List.not_mem_nil, or_false] at he
+    rcases he with rfl | rfl
+    · exact ⟨by dsimp only; decide, by simp⟩
+    · exact ⟨by dsimp only; decide, hi⟩
+  have hinner : parseFlat [(T.tNackReason, FKind.uint)] false T.lengthCheck ([] : Bytes) = .ok [] := by
+    have h := parseFlat_elems [(T.tNackReason, FKind.uint)] false T.lengthCheck [] (by simp)
+    simpa [wireOf, collect] using h
+  unfold bareNack parseLp
+  rw [parseAndCheckTl_tlv _ _ (by decide) hlen]
+  simp only [bind, Except.bind]
+  rw [parseValue_elems T _ hsz]
+  simp only [collect, nack_at, parseVal, List.take_length, hinner, Except.map, List.nil_append,
+    frag_last 4 (by decide), parseFVal]
+  simp only [lookup, pure, Except.pure, nackOf, bytesOf]
+  simp [T, Gen.C10.table, lookup]
+
+/-- **lp_nack_bare.** NDNLPv2 makes NackReason optional.  A Nack header without it is a Nack with reason
+    None (0): receiving `LpPacket{ Nack{}, Fragment = i }` completes exactly the pending Interests named by the
+    enclosed Interest, each with `InterestNack(0)`, and touches nothing else - it is not handed to the
+    incoming-Interest path (the defect repaired in /repo: the Interest used to be treated as a fresh one). -/
+theorem lp_nack_bare (g : Guards) (hg : g.lpType = T.tLpPacket) (hdg : g.nackByDigest = true)
+    (hk : PyErr.keyError ∈ g.caughtNackLookup)
+    (int : Bytes → Except PyErr IntFacts) (data : Bytes → Except PyErr DataFacts)
+    (st : State) (t : Nat) (v : Bytes) (ht : t < 2^64) (hv : v.length < 2^64)
+    (hi : (tlv t v).length < 2^64)
+    (hlen : (wireOf [(T.tNack, ([] : Bytes)), (T.tFragment, tlv t v)]).length < 2^64)
+    (facts : IntFacts) (hint : int (tlv t v) = .ok facts) :
+    receive g (decoders T int data) st T.tLpPacket (bareNack (tlv t v)) =
+      .ok (afterNack st facts.name, (named st facts.name).map fun p => Effect.nacked p.id 0) := by
+  have htl : parseTlNum (tlv t v) 0 = .ok (t, tlNumSize t) := by
+    unfold tlv; rw [List.append_assoc]; exact parse_write t _ ht
+  rw [← hg, receive_lp_ok g int data st _ _ _ t _ (parseLp_nack_bare _ hi hlen) rfl htl]
+  simp only [receiveNet, nackReasonOf, Option.map, Option.getD, guarded, decoders, hint, onNack, nackNode, nackSplit, hdg,
+    if_true, hk, named, afterNack]
+  cases PyDict.get? st.pit (splitDigest facts.name).1 <;> rfl
+
 /-- non-vacuity: two Interests pending on /a, one of them asking for an implicit digest; a Nack for /a
     completes only the one without digest -/
 example : named ⟨[([[8, 1, 97]], [⟨0, false, []⟩, ⟨1, false, [7, 7]⟩])], []⟩ [[8, 1, 97]] = [⟨0, false, []⟩] ∧
